@@ -281,6 +281,8 @@ static void timer_cb(void *data)
 	fire_triggers(o);
 }
 
+// "its callback returns a negative value": any negative value
+static const int32_t NEGS[4] = { -1, -2, -11, INT32_MIN };
 static int32_t fd_cb(int32_t fd, int32_t revents, void *data)
 {
 	Reg *rg = (Reg *)data;
@@ -304,7 +306,7 @@ static int32_t fd_cb(int32_t fd, int32_t revents, void *data)
 		// registration since): the negative return concerns this registration only
 		o.neg_pending = false; o.retneg_armed = false;
 		count(p_retneg);
-		return -1;
+		return NEGS[(size_t)(o.invoked + (uint64_t)o.id) % 4];
 	}
 	if (o.retneg_armed) {
 		// the usual pattern: close the descriptor and tell the loop to forget it
@@ -317,10 +319,12 @@ static int32_t fd_cb(int32_t fd, int32_t revents, void *data)
 			if (o.rfd >= 0) { close(o.rfd); o.rfd = -1; }
 			if (o.wfd >= 0) { close(o.wfd); o.wfd = -1; }
 			o.bytes = 0; o.peer_closed = false; o.ready_since = -1;
-			return -1;
+			return NEGS[(size_t)(o.invoked + (uint64_t)o.id) % 4];
 		}
 	}
-	return 0;
+	// any value that is not negative means "keep watching"
+	static const int32_t KEEP[4] = { 0, 0, 1, INT32_MAX };
+	return KEEP[(size_t)(o.invoked + (uint64_t)o.id) % 4];
 }
 
 static int32_t sig_cb_common(int32_t sig, void *data, bool alt);
